@@ -24,6 +24,7 @@ META = {
         "and repetition of fragment packets (values/histories)."
     ),
 }
+META["explanation"] += ' C17.R5: in _update_payload_set a received fragment whose count matches is always stored (or restarts the set).'
 
 S = "ramses_rf.system.schedule"
 
